@@ -924,6 +924,39 @@ func niCreator(c *Ctx, a *flAgg) {
 		}
 	}
 	c.stat("NI", "creator_index_sites", n)
+	// the creator is named whenever there is one: createdByString returns ""
+	// only for an empty creation stack
+	if fn := c.L.Func("internal", "pathFormat", "createdByString"); fn != nil {
+		exprHome = fn.Pkg.Pkg
+		x := &SPE{Fn: fn, MaxVisits: 2}
+		x.Explore()
+		nEmpty, bad := 0, ""
+		for _, p := range x.Paths {
+			if p.Term != "return" || len(p.Results) != 1 {
+				continue
+			}
+			if k, isC := constStr(p.Results[0]); !isC || k != "" {
+				continue
+			}
+			nEmpty++
+			none := false
+			for _, lt := range p.Lits {
+				s := lt.Atom.String()
+				if lt.Pol && strings.HasPrefix(s, "(len(") && strings.HasSuffix(s, ".CreatedBy.Calls) == 0)") {
+					none = true
+				}
+			}
+			if !none {
+				bad = litsString(p)
+			}
+		}
+		switch {
+		case bad != "":
+			a.bad("NI-creator", "createdByString/iff-known", "no creator is named on a path on which the creation stack is not empty ("+bad+"): the header loses its [Created by ...] although the dump named the creator", fn.Pos())
+		case nEmpty > 0:
+			a.ok("NI-creator", "createdByString/iff-known", "the creator is left out only when the creation stack is empty", fn.Pos())
+		}
+	}
 }
 
 
